@@ -24,22 +24,43 @@ Record cin := {
   i_picks : list nat             (* completion schedule *)
 }.
 
+(* the same with the digest, the oracle and the schedule as arbitrary functions: the theorems are
+   stated for these; a case file supplies finite tables *)
+Record gin := {
+  g_H : string -> string;
+  g_svcs : list ksvc;
+  g_order : list nat;
+  g_want : nat;
+  g_retries : nat;
+  g_entry : entry;
+  g_hash : string;
+  g_data : string;
+  g_nbytes : N;
+  g_oracle : nat -> nat -> outcome;
+  g_pick : nat -> nat
+}.
+
 Definition oracle_of (t : list (list outcome)) (srv round : nat) : outcome := nth round (nth srv t []) ConnErr.
 Definition pick_of (p : list nat) (k : nat) : nat := nth k p 0.
-Definition H_of (i : cin) : string -> string := fun _ => i_md5 i.
+Definition gin_of (i : cin) : gin :=
+  {| g_H := fun _ => i_md5 i; g_svcs := i_svcs i; g_order := i_order i; g_want := i_want i; g_retries := i_retries i;
+     g_entry := i_entry i; g_hash := i_hash i; g_data := i_data i; g_nbytes := i_nbytes i;
+     g_oracle := oracle_of (i_table i); g_pick := pick_of (i_picks i) |}.
 
-Definition run_model (i : cin) : run :=
-  put (H_of i) (i_svcs i) (i_order i) (i_want i) (i_retries i) (oracle_of (i_table i)) (pick_of (i_picks i))
-      (i_entry i) (i_hash i) (i_data i) (i_nbytes i).
+Definition run_g (i : gin) : run :=
+  put (g_H i) (g_svcs i) (g_order i) (g_want i) (g_retries i) (g_oracle i) (g_pick i)
+      (g_entry i) (g_hash i) (g_data i) (g_nbytes i).
+Definition run_model (i : cin) : run := run_g (gin_of i).
 
 (* the hash, length and effective answers the model expects for this input *)
-Definition exp_hash (i : cin) : string := put_hash (H_of i) (i_entry i) (i_hash i) (i_data i).
-Definition exp_len (i : cin) : N := put_len (i_entry i) (i_data i) (i_nbytes i).
-Definition exp_body_ok (i : cin) : bool := body_ok (H_of i) (i_entry i) (exp_hash i) (i_data i) (exp_len i).
-Definition exp_answer (i : cin) (srv round : nat) : outcome :=
-  eff_answer (H_of i) (oracle_of (i_table i)) (i_entry i) (exp_hash i) (i_data i) (exp_len i) srv round.
-Definition oversize (i : cin) : bool :=
-  match i_entry i with EPutHR => (BLOCKSIZE <? i_nbytes i)%N | _ => false end.
+Definition exp_hash (i : gin) : string := put_hash (g_H i) (g_entry i) (g_hash i) (g_data i).
+Definition exp_len (i : gin) : N := put_len (g_entry i) (g_data i) (g_nbytes i).
+Definition exp_body_ok (i : gin) : bool := body_ok (g_H i) (g_entry i) (exp_hash i) (g_data i) (exp_len i).
+Definition exp_answer (i : gin) (srv round : nat) : outcome :=
+  eff_answer (g_H i) (g_oracle i) (g_entry i) (exp_hash i) (g_data i) (exp_len i) srv round.
+Definition oversize (i : gin) : bool :=
+  match g_entry i with EPutHR => (BLOCKSIZE <? g_nbytes i)%N | _ => false end.
+Definition sv_of (i : gin) : list nat := put_order (g_svcs i) (g_order i).
 
 (* ---- schedule for the lock-step harness: per step [done; started...], then [abandoned...] ---- *)
 Definition sched (i : cin) : list (list N) :=
@@ -123,49 +144,51 @@ Fixpoint retry_ok_b (retries : nat) (seen todo : list step) : bool :=
 
 (* a service that accepts the block on every attempt *)
 Definition accept (o : outcome) : bool := is200 o && (1 <=? o_rep o).
-Definition accepts_always (i : cin) (srv : nat) : bool :=
-  forallb (fun a => accept (exp_answer i srv a)) (seq 0 (S (i_retries i))).
-Definition n_accepting (i : cin) : nat :=
-  List.length (filter (accepts_always i) (put_order (i_svcs i) (i_order i))).
+Definition accepts_always (i : gin) (srv : nat) : bool :=
+  forallb (fun a => accept (exp_answer i srv a)) (seq 0 (S (g_retries i))).
+Definition n_accepting (i : gin) : nat :=
+  List.length (filter (accepts_always i) (sv_of i)).
 
 Definition last_retryable (i : nat) (ss : list step) : bool :=
   match rev (hist i ss) with o :: _ => retryable (o_code o) | [] => false end.
 (* Put gives up only when every writable service was asked, and those whose last answer was
    transient were asked 1+Retries times *)
-Definition exhausted_b (i : cin) (ss : list step) : bool :=
+Definition exhausted_b (i : gin) (ss : list step) : bool :=
   forallb (fun srv => (1 <=? List.length (hist srv ss)) &&
-                      (negb (last_retryable srv ss) || (List.length (hist srv ss) =? S (i_retries i))))
-          (put_order (i_svcs i) (i_order i)).
+                      (negb (last_retryable srv ss) || (List.length (hist srv ss) =? S (g_retries i))))
+          (sv_of i).
 
-Definition req_ok_b (i : cin) (q : oreq) : bool :=
-  String.eqb (q_path q) (exp_hash i) && String.eqb (q_desired q) (dec (N.of_nat (i_want i))) &&
+Definition req_ok_b (i : gin) (q : oreq) : bool :=
+  String.eqb (q_path q) (exp_hash i) && String.eqb (q_desired q) (dec (N.of_nat (g_want i))) &&
   (q_clen q =? exp_len i)%N &&
-  (negb (exp_body_ok i) || String.eqb (q_body q) (if (exp_len i =? 0)%N then "" else i_data i)).
+  (negb (exp_body_ok i) || String.eqb (q_body q) (if (exp_len i =? 0)%N then "" else g_data i)).
 
 Definition is_ok (r : result) : bool := match r with Ok _ _ => true | _ => false end.
 
-Definition spec_b (c : case) : bool :=
-  let i := c_in c in let o := c_obs c in let ss := ob_steps o in
+Definition gspec_b (i : gin) (o : obs) : bool :=
+  let ss := ob_steps o in
   ob_returned o &&
   (* only writable services are written to *)
-  forallb (fun s => mem s (writable_ids (i_svcs i))) (contacted o) &&
+  forallb (fun s => mem s (writable_ids (g_svcs i))) (contacted o) &&
   (* every request is for the block's hash and size and carries the data; the answers are the ones
      the services issue for such requests *)
   forallb (req_ok_b i) (ob_reqs o) &&
   forallb (fun s => outcome_eqb (st_out s) (exp_answer i (st_done s) (st_round s))) ss &&
   (* retry policy *)
-  retry_ok_b (i_retries i) [] ss &&
-  forallb (may_contact_b (i_retries i) ss) (ob_extra o) &&
+  retry_ok_b (g_retries i) [] ss &&
+  forallb (may_contact_b (g_retries i) ss) (ob_extra o) &&
   (* result *)
   match ob_res o with
-  | Ok l n => negb (oversize i) && (i_want i <=? n) && (n <=? total_stored ss) && loc_ok_b l ss
+  | Ok l n => negb (oversize i) && (g_want i <=? n) && (n <=? total_stored ss) && loc_ok_b l ss
   | Insufficient l n =>
-      negb (oversize i) && (n <? i_want i) && (n =? total_stored ss) && loc_ok_b l ss &&
+      negb (oversize i) && (n <? g_want i) && (n =? total_stored ss) && loc_ok_b l ss &&
       all_returned_b o &&
-      exhausted_b i ss && (n_accepting i <? i_want i)
+      exhausted_b i ss && (n_accepting i <? g_want i)
   | Oversize => oversize i && match contacted o with [] => true | _ => false end &&
                 match ob_reqs o with [] => true | _ => false end
   end.
+
+Definition spec_b (c : case) : bool := gspec_b (gin_of (c_in c)) (c_obs c).
 
 (* ---- model = observation ---- *)
 Definition model_b (c : case) : bool :=
